@@ -106,8 +106,45 @@ enum Conv {
   Status(Arc<CompleteStatus>),
 }
 
+/// kind `statusrace`: `CompleteStatus::wait_for_end` in a helper thread whose
+/// hook H3 (between the flag check and the waker registration of
+/// `StatusFuture::poll`) runs the producer's terminal — the interleaving of
+/// RxModel/Props/C14T.lean, replayed deterministically on the real code.
+fn run_status_race(case: &Case, out: &mut Out) {
+  use rxrust::ops::complete_status::verif::AFTER_CHECK;
+  use std::sync::mpsc;
+  use std::time::Duration;
+  for (k, ev) in case.events.iter().enumerate() {
+    out.cur = k;
+    let term = Notif::parse(&ev[1]);
+    let subject: SubjectThreads<Val, i64> = SubjectThreads::default();
+    let tlog = Arc::new(Mutex::new(Vec::<Notif>::new()));
+    let (op, status) = subject.clone().complete_status();
+    let _ = op.actual_subscribe(ProbeT(tlog.clone()));
+    let (tx, rx) = mpsc::channel::<()>();
+    std::thread::spawn(move || {
+      let producer = subject.clone();
+      AFTER_CHECK.with(|c| {
+        *c.borrow_mut() = Some(Box::new(move || match term {
+          Notif::Error(e) => producer.error(e),
+          _ => producer.complete(),
+        }))
+      });
+      CompleteStatus::wait_for_end(status);
+      let _ = tx.send(());
+    });
+    match rx.recv_timeout(Duration::from_millis(400)) {
+      Ok(()) => out.emit(k, "wait=returned".to_string()),
+      Err(_) => out.emit(k, "wait=HANG".to_string()),
+    }
+  }
+}
+
 pub fn run(case: &Case, out: &mut Out) {
   let kind = case.field("kind")[0].atom().to_string();
+  if kind == "statusrace" {
+    return run_status_race(case, out);
+  }
   let threads = case.flavor == "threads";
   let wk = Arc::new(CountWaker(AtomicUsize::new(0)));
   let the_waker = waker(wk.clone());
